@@ -313,6 +313,9 @@ def check_core_forwarding(ctx, P, rule="E5.forward", methods=None):
         if r["sink"].endswith("core_aggregate_verify"):
             mc = r["msg"]
             ok = (mc[0] == "param") or (mc[0] == "map" and mc[1] == "param" and _pk_elem_ok(mc)) or (mc[0] == "map" and fn.trait_default_of == "BlsSignatureBasic" and _pk_elem_ok(mc))
+            if not ok and fn.trait_default_of == "BlsSignatureBasic":
+                # the collected (key, message copy) pairs handed over as they are: the pushed pair keeps the entry's key
+                ok = _collected_image_of_pks(P, fn, ev, site.args[0]) and _pushed_key_is_entry_key(fn, ev, site.args[0])
             sig = B.peel(strip_sites(site.args[1]))
             ok = ok and sig.op == "param"
             ctx.ob(rule, "%s->core_aggregate_verify" % fn.key, ok, "the pair list reaches core_aggregate_verify as the caller's iterator or a 1:1 map keeping each entry's key (%s); signature forwarded unmodified" % (mc,), where=where(fn, r["bb"]))
@@ -327,6 +330,26 @@ def check_core_forwarding(ctx, P, rule="E5.forward", methods=None):
             ctx.ob(rule, "%s->%s" % (fn.key, r["sink"].split("::")[-1]), ok, "key and signature arguments are the caller's values unmodified: %s" % [show(x, 3) for x in a], where=where(fn, r["bb"]))
     ctx.floor(rule, "verification-side core calls", n, 8 if not methods else 1)
     return rows
+
+
+def _pushed_key_is_entry_key(fn, ev, it):
+    """In the push loop that fills the list, the first component of the pushed pair is the key of the entry being visited
+    (the first component of the element the loop's iterator yielded)."""
+    for bb, s_ in sorted(ev.sites.items()):
+        if s_.callee[0] != "Vec::<T, A>::push" or len(s_.args) != 2:
+            continue
+        el = B.peel(s_.args[1])
+        if not (el.op == "agg" and el.a[0][0] == "tuple" and len(el.a[1]) == 2):
+            continue
+        k = B.peel(el.a[1][0])
+        # (next(..) as Some).0 possibly through enumerate: .0.1.0 / .0.0
+        path = []
+        while k.op == "field":
+            path.append(k.a[1])
+            k = k.a[0]
+        if k.op == "downcast" and k.a[1] == "Some" and B.peel(k.a[0]).op == "call" and B.cname(B.peel(k.a[0])) == "Iterator::next" and path and path[0] == "0":
+            return True
+    return False
 
 
 def _pk_elem_ok(mc):
@@ -411,7 +434,23 @@ def check_basic_collected(ctx, P, fn, r):
     site = ev.sites[r["bb"]]
     it = site.args[0]
     ok = it.op == "call" and B.cname(it) == "Iterator::map"
-    return ok
+    return ok or _collected_image_of_pks(P, fn, ev, it)
+
+
+def _collected_image_of_pks(P, fn, ev, it):
+    """The list handed on is a 1:1 image of the caller's `pks` iterator: a vector filled with one push per entry (handed
+    over by value, by iterator or through a per-element map)."""
+    from . import flow as F
+
+    src, steps = F.image_source(P, fn, ev, it)
+    if src is None or not any(str(s_).startswith("push-loop") for s_ in steps):
+        return False
+    x = B.peel(src)
+    k = 0
+    while x.op == "call" and len(x.a[1]) >= 1 and B.cname(x) in ("Iterator::enumerate", "IntoIterator::into_iter", "Iterator::by_ref") and k < 4:
+        x = B.peel(x.a[1][0])
+        k += 1
+    return x.op == "param" and x.a[1] == "pks"
 
 
 # ---------------------------------------------------------------------------
@@ -426,11 +465,19 @@ def check_hash_to_point_routing(ctx, P, rule="E1.h2c"):
     for f in impls:
         ev = evaluate(f)
         ctx.saw(f)
-        ret = strip_sites(ev.ret)
+        # private helpers / extension-trait impls between the impl and the backend call are looked through
+        raw_ret = inline(P, ev.ret, 3, only=local_inliner(P))
+        ret = strip_sites(raw_ret)
         ok_shape = ret.op == "call" and len(ret.a[1]) == 2
         name = B.cname(ret) if ok_shape else None
         gargs = ret.a[0][1] if ok_shape else ()
         site = [s for s in ev.sites.values() if s.callee[0] == name]
+        if not site and ok_shape:
+            # the backend call sits in an inlined helper: find its call site there
+            wh = raw_ret.a[2] if len(raw_ret.a) > 2 and isinstance(raw_ret.a[2], tuple) else None
+            g_ = P.fns.get(wh[0]) if wh else None
+            if g_ is not None:
+                site = [s for b_, s in evaluate(g_).sites.items() if b_ == wh[1] and s.callee[0] == name]
         path = site[0].raw["callee"]["path"] if site else ""
         # random-oracle map, not the non-uniform `encode`
         ctx.ob(rule + ".ro", f.key, ok_shape and name in ("G1Projective::hash", "G2Projective::hash") and path.endswith("::hash"), "hash_to_point must end in the backend's random-oracle `hash` (found `%s`)" % path, where=where(f))
